@@ -543,15 +543,23 @@ def ecall_rule(ctx: Ctx) -> None:
     default: list = []
     subjects: set = set()
     n_paths = 0
-    for p in function_paths(f.node):
+    all_paths = [(p, sym_events(p)) for p in function_paths(f.node)]
+    # the dispatch subject: the expression compared with the most distinct constants (a loop test `byte == 0` is not the dispatch)
+    seen_consts: dict = {}
+    for p, evs in all_paths:
+        for se in evs:
+            ct = code_test(se.node) if se.event.kind == "test" else None
+            if ct is not None:
+                seen_consts.setdefault(ct[0], set()).update(ct[1])
+    main = max(seen_consts, key=lambda k: len(seen_consts[k])) if seen_consts else None
+    for p, evs in all_paths:
         n_paths += 1
-        evs = sym_events(p)
         pos = None
         for se in evs:
             if se.event.kind != "test":
                 continue
             ct = code_test(se.node)
-            if ct is None:
+            if ct is None or ct[0] != main:
                 continue
             subjects.add(ct[0])
             if se.event.pol:
